@@ -305,6 +305,7 @@ func c03Run(c *core.Ctx) *core.Result {
 	var unsolicited []hpkt
 	forceMeta := false
 	hlSrc, hlDst := "", ""
+	var hlSkip []string
 	extraAfterEnd := false
 	finEarly := false
 	switch mut {
@@ -497,13 +498,26 @@ func c03Run(c *core.Ctx) *core.Result {
 		// select X (set below), so X is never written and the link must not be
 		// made to (or applied through) the old symlink
 		hlSrc, hlDst = "0hl-src", "zz-hl-member"
-		stats = append([]*types.Stat{fileStat(hlSrc)}, stats...)
+		if R.P(1, 2) {
+			// the link source lies below a directory that is announced but not
+			// written either; dest holds a symlink of the directory's name
+			// that points to an outside directory with an entry of that name
+			hlSkip = []string{"0hl-dir", "0hl-dir/a"}
+			hlSrc = "0hl-dir/a"
+			stats = append([]*types.Stat{dirStat("0hl-dir"), fileStat(hlSrc)}, stats...)
+			os.RemoveAll(filepath.Join(dest, "0hl-dir"))
+			os.Symlink(core.Pick(R, []string{outside + "/dir", up + rc + "/outside/dir"}), filepath.Join(dest, "0hl-dir"))
+			r.Count("hl_source_behind_symlinked_dir_scripts", 1)
+		} else {
+			hlSkip = []string{hlSrc}
+			stats = append([]*types.Stat{fileStat(hlSrc)}, stats...)
+			os.Remove(filepath.Join(dest, hlSrc))
+			os.Symlink(core.Pick(R, []string{outside + "/file", outside + "/dir", up + rc + "/outside/file"}), filepath.Join(dest, hlSrc))
+		}
 		m := hlStat(hlDst)
 		m.Mode = 0600
 		m.Linkname = hlSrc
 		stats = append(stats, m)
-		os.Remove(filepath.Join(dest, hlSrc))
-		os.Symlink(core.Pick(R, []string{outside + "/file", outside + "/dir", up + rc + "/outside/file"}), filepath.Join(dest, hlSrc))
 	case "err-packet":
 		unsolicited = append(unsolicited, hpkt{Kind: "err", Data: []byte("sender says no")})
 	case "req-from-sender":
@@ -530,7 +544,7 @@ func c03Run(c *core.Ctx) *core.Result {
 	if hlSrc != "" {
 		mode = "merge+metaonly"
 		opt.Merge = true
-		opt.MetaOnly = "not:" + hlSrc
+		opt.MetaOnly = "not:" + strings.Join(hlSkip, "\x00")
 	}
 	_ = hlDst
 	var script []string
